@@ -27,7 +27,7 @@ _known = None
 
 PURE_CALLS = {"size", "length", "empty", "begin", "end", "cbegin", "cend", "rbegin", "rend", "crbegin", "crend", "data", "front", "back",
               "operator[]", "operator*", "operator->", "operator+", "operator-", "min", "max", "get", "first", "second", "active", "shadow",
-              "flipped", "prev", "next", "distance", "key", "top", "load",
+              "flipped", "prev", "next", "distance", "key", "top", "load", "forward", "move", "addressof", "as_const",
               # pure integer helpers of tlx/math
               "round_up_to_power_of_two", "round_down_to_power_of_two", "div_ceil", "integer_log2_floor", "integer_log2_ceil", "is_power_of_two",
               "abs_diff", "clz", "ctz", "popcount", "ffs", "rol32", "rol64", "ror32", "ror64", "bswap16", "bswap32", "bswap64", "sgn", "round_up",
